@@ -53,6 +53,8 @@ def _cases(draw):
             # a second sensor at the same site as the ground sensor (a radar next to a radar): every stored observation of the first is
             # also stored for the second - same epoch, same target, same sensor position, different sensor
             "colocated": draw(st.sampled_from([False, False, True])),
+            # an importer written by a tool (or an older version) that knows fewer tables: one table the run never reads is absent
+            "absent_table": draw(st.sampled_from([None, None, None, "detected_maneuvers", "missed_observations", "tasks"])),
             # the importing scenario may split the same agents over two tasking engines (each sensor/target pair of the source
             # run stays inside one engine)
             "two_engines": draw(st.sampled_from([False, False, "same_split", "split_only_importing", "shared_target"]))}
@@ -161,6 +163,10 @@ def importer(c, rec):
         for sid, tid, jd in cur.execute("select sensor_id, target_id, julian_date from observations").fetchall():
             k = [kk for kk, j in jd_of.items() if abs(j - jd) < 1e-9][0]
             obs_rows.setdefault(k, []).append((sid, tid))
+        if c.get("absent_table"):
+            cur.execute(f"drop table if exists {c['absent_table']}")
+            con.commit()
+            rec.label("importer_without_table:" + c["absent_table"])
         con.close()
         sha0, dump0 = _sha(imp), _dump(imp)
         # every mix with at least one imported class: targets only, targets + sensors, sensors only
@@ -268,7 +274,25 @@ def importer(c, rec):
             eu.EstUpdateRegistration.__init__ = orig_init
         kit.fresh_db()
         if _sha(imp) != sha0 or _dump(imp) != dump0:
-            raise Violation("importer_modified", "the importer database file changed during the run")
+            # known finding K4 (exactly it): the only change is that the absent table now exists, empty
+            only_k4 = False
+            if c.get("absent_table"):
+                con2 = sqlite3.connect(imp)
+                try:
+                    empty = con2.execute(f"select count(*) from {c['absent_table']}").fetchone()[0] == 0
+                    con2.execute(f"drop table {c['absent_table']}")
+                    for (ix,) in con2.execute("select name from sqlite_master where type = 'index' and tbl_name = ?", (c["absent_table"],)).fetchall():
+                        con2.execute(f"drop index if exists {ix}")
+                    restored = "\n".join(con2.iterdump())
+                    only_k4 = empty and hashlib.sha256(restored.encode()).hexdigest() == dump0
+                except sqlite3.Error:
+                    only_k4 = False
+                finally:
+                    con2.rollback()
+                    con2.close()
+            if not (only_k4 and rec.excluded("K4-importer-tables-created")):
+                raise Violation("importer_modified", "the importer database file changed during the run" + (f" (beyond the creation of the absent table {c['absent_table']})" if c.get("absent_table") else ""))
+            rec.label("known_K4_absent_table_created")
         # the importer interface refuses writes
         from resonaate.data.importer_database import ImporterDatabase
 
